@@ -12,7 +12,7 @@ UV_EOF, UV_ENOBUFS = -4095, -105
 # keys of the two defects repaired by /repo commit 34f0ffa (kept only to name a regression)
 FIXED_IPC = "ipc_premature_eof_after_fd_message"
 FIXED_NONIPC = "pipe_premature_eof_after_fd_message_nonipc"
-HARNESS_ONLY = "WGHQUKMBVYODZEN"
+HARNESS_ONLY = "WGHQUKMBVYODZENJ"
 
 
 # --------------------------------------------------------------------------
@@ -23,8 +23,9 @@ def gen_allocs(rng):
     if r < 0.35:
         return [rng.choice([1, 2, 3, 7, 64, 65536])]
     if r < 0.55:
-        return [rng.choice([1, 2, 3, 7])] * rng.choice([1, 2]) + [rng.choice([0, "n5", "n0", 65536, 7])]
-    pool = rng.choice([[1, 2, 3, 7], [1, 2, 3, 7, 65536, 0, "n7"], [3, 7, 64], [65536, 7], [2, 0], [1]])
+        return [rng.choice([1, 2, 3, 7])] * rng.choice([1, 2]) + [rng.choice([0, "n5", "n0", "k", "k", 65536, 7])]
+    pool = rng.choice([[1, 2, 3, 7], [1, 2, 3, 7, 65536, 0, "n7", "k"], [3, 7, 64], [65536, 7], [2, 0], [1],
+                       [4, "k"], [2, "k", "n0", 0]])
     return [rng.choice(pool) for _ in range(rng.randint(1, 5))]
 
 
@@ -271,6 +272,10 @@ FIXED = [
     "1 ; S1 w4 g4 w4 g2 g4 R R R ; ; 4 ; ",
     "1 ; S1 w1 g1 w1 g1 g1 R R ; ; 1 ; ",
     "1 ; S1 w2 w2 g2 g2 q R R R ; ; 2 ; ",
+    # refusal by leaving *buf untouched, in the 2nd/3rd iteration of a pass (the 1st read filled its buffer)
+    "0 ; S1 w8 R R R ; ; 4 k ; ",
+    "1 ; S1 w9 R R R R ; ; 3 3 k n0 0 ; ",
+    "0 ; S1 w2 R R R ; ; k 2 ; ",
     # a write of ours fails while the read direction is healthy: nothing may be lost, EOF must come
     "0 ; S1 w5 R X32 w5 R w5 q Z ; ; 64 ; ",
     "0 ; S1 w5 X104 w7 h Z ; ; 3 ; ",
@@ -324,6 +329,7 @@ def monitor(case, line, ipc, tcp=False):
     last_k = None
     fd_msgs = []
     inbox = reset = peer_closed = peer_shut = False
+    styles = case.split(";")[3].split() if case.count(";") >= 4 else []
     eof_ctx = None
     for ev in trace:
         k, a = ev[0], ev[1:]
@@ -357,6 +363,12 @@ def monitor(case, line, ipc, tcp=False):
             reset = tcp and inbox
         elif k in "YOZ":
             pass
+        elif k == "J":
+            if a[0] == "r":
+                return (None, "read()/recvmsg() was pointed at a buffer not obtained from the current alloc_cb "
+                              "(%s)" % ("block %s, already handed back" % a[1:] if a[1:] != "-1" else "unknown memory"))
+            blk, times = a[1:].split(",")
+            return (None, "buffer %s handed back %s times" % (blk, times))
         elif k == "N":
             if int(a) == 0:
                 inbox = True
@@ -411,6 +423,10 @@ def monitor(case, line, ipc, tcp=False):
             if a[:1] in "!?":
                 return (None, "an alloc_cb buffer was never handed to a read callback")
             i, sug, base, ln = a.split(",")
+            if styles and styles[int(i) % len(styles)] == "k" and (base != "0" or ln != "0"):
+                return (None, "alloc_cb #%s found *buf not zeroed (base %s, len %s): an alloc_cb that refuses by "
+                              "leaving *buf untouched makes libuv read into the previous buffer again"
+                              % (i, "set" if base == "1" else "NULL", ln))
             if quiet:
                 return (None, "alloc_cb called %s" % why)
             if out is not None:
